@@ -59,3 +59,20 @@ def brief(r):
             'result_head': (ex['short'] or '')[-330:],
             'n_solves': len(ex['events']),
             'reference_feasible': r['facts'].get('n_feasible')}
+
+
+def contracts_on(ctx):
+    """Install the icontract monitors once per worker."""
+    from .. import contracts
+    if not getattr(ctx, '_contracts', None):
+        ctx._contracts = contracts.install_all()
+        ctx.notes.append({'contracts': ctx._contracts})
+    return contracts
+
+
+def harvest_contracts(ctx, case):
+    from .. import contracts
+    for f in contracts.drain():
+        ctx.finding(f, case)
+    for k, v in contracts.EVALS.items():
+        ctx.counters['contract_evals_' + k] = v
